@@ -1,5 +1,5 @@
 """C13 — size limits and block-size choice: the borders (structural clauses only)."""
-from ..rules import generator as gen, engine, piece, casts
+from ..rules import generator as gen, engine, piece, casts, summary
 
 EXPL = ("Decides the *borders* named in the property from the exact branch conditions in MIR with rustc-evaluated constants: "
         "set_fixed_input_size refuses exactly size > 192 GiB (206158430208); finalisation returns InputSizeTooLarge exactly for "
@@ -33,6 +33,7 @@ def run(ctx):
         ctx.guard("C13", "init", lambda: piece.initial_state(ctx, prog))
         ctx.guard("C13", "reset", lambda: gen.reset_equals_new(ctx, prog))
         ctx.guard("C13", "reset-side", lambda: gen.reset_side_conditions(ctx, prog))
+        ctx.guard("C13", "summaries", lambda: summary.check(ctx, prog, 'internals::generate::Generator', floor=5))
         ctx.guard("C13", "casts", lambda: casts.census(ctx, prog, scope='internals::generate::', floor=3))
         if not c.startswith("unsafe"):
             ctx.guard("C13", "piece", lambda: piece.piece_effects(ctx, prog))
